@@ -132,6 +132,52 @@ func c04CheckPCR(c c04PCRCase) engine.Result {
 	return res
 }
 
+type c04DenseCase struct {
+	Block uint64 `json:"block"` // 4096 consecutive bases starting at Block*4096 (Top: counted down from 2^33-1)
+	Top   bool   `json:"top"`
+}
+
+// every base of a dense range with the first, second and last extension: arithmetic that is only wrong for a
+// scattered subset of values (a detour through floating point, a multiplication that rounds) has nowhere to hide
+func c04CheckDense(c c04DenseCase) engine.Result {
+	var res engine.Result
+	engine.Guard(&res, "pcr-dense", func() {
+		buf := make([]byte, 6)
+		var w ref.BitWriter
+		for i := uint64(0); i < 4096; i++ {
+			base := c.Block*4096 + i
+			if c.Top {
+				base = 1<<33 - 1 - base
+			}
+			for _, ext := range [...]uint64{0, 1, 299} {
+				v := base*300 + ext
+				w.Reset()
+				w.Put(33, base)
+				w.Ones(6)
+				w.Put(9, ext)
+				want := w.Out()
+				for j := range buf {
+					buf[j] = 0
+				}
+				res.Evals++
+				gots.InsertPCR(buf, v)
+				if !bytes.Equal(buf, want) {
+					res.Failf("InsertPCR|dense|bytes", "pcr %d (base %d ext %d): wrote % x want % x", v, base, ext, buf, want)
+				}
+				if got := gots.ExtractPCR(want); got != v {
+					res.Failf("ExtractPCR|dense|value", "bytes % x (base %d ext %d) decode as %d want %d", want, base, ext, got, v)
+				}
+				if len(res.Fail) > 6 {
+					return
+				}
+			}
+		}
+	})
+	res.Nontrivial = 4096 * 3
+	res.Outcome(c.Block & 0xFF)
+	return res
+}
+
 type c04PTSCase struct {
 	V uint64 `json:"pts"`
 }
@@ -522,6 +568,23 @@ func init() {
 					}
 				},
 				Check: c04CheckPCR, Batch: 4,
+			},
+			&engine.Enum[c04DenseCase]{
+				Name: "pcr-dense",
+				Rule: "EVERY PCR base in 0..2^20-1 (thorough 0..2^24-1) and in the top 2^16 (thorough 2^20) bases below 2^33, each with extension 0, 1 and 299: InsertPCR bytes == bit-writer layout, ExtractPCR of the layout == value (dense ranges: arithmetic that is wrong only for a scattered subset of values shows)",
+				Gen: func(r *engine.Run, emit func(c04DenseCase)) {
+					lo, hi := uint64(1<<20), uint64(1<<16)
+					if r.Thorough() {
+						lo, hi = 1<<24, 1<<20
+					}
+					for b := uint64(0); b < lo/4096; b++ {
+						emit(c04DenseCase{b, false})
+					}
+					for b := uint64(0); b < hi/4096; b++ {
+						emit(c04DenseCase{b, true})
+					}
+				},
+				Check: c04CheckDense, Batch: 4,
 			},
 			&engine.Enum[c04PTSCase]{
 				Name: "pts-codec",
